@@ -52,6 +52,9 @@ CHECKS = {
  "C19": dict(technique="TLA+ judge (Explorer.tla) of the answers of a real Explorer instance on loopback, of Path API round trips and of on-demand request sequences; TLC's own exploration of the same graphs as count oracle",
              text="For generated graphs a real serve() instance is queried over HTTP for every execution up to depth 3 and for non-executions (404), its status endpoint before/after run-to-completion is decoded back to node paths and judged (counts, witness paths), Path::from_actions/encode/into_* are judged on all short action lists incl. disabled/ignored actions, and spawn_on_demand is driven by request sequences (requested pending states get evaluated, nothing unrequested is, completion equals BFS).",
              note="HTTP via loopback sockets; fingerprints mapped to nodes through Path::encode; depth <=3", ref="4/C19"),
+ "C17": dict(technique="TLA+ trace validation (SpawnRuntime.tla) of real executions of instrumented actors under spawn() on loopback UDP + TLC judge of Id<->address conversions against IdAddr.tla",
+             text="Handler invocations of command-interpreter actors run by the real UDP runtime, together with the harness's sends and receipts, are consumed event by event by the trace specification: on_start first and once, every on_msg matched to a datagram in flight with the source Id of its sender, one datagram per Send, timers firing only while armed and not before the lower bound of their latest arming, state threading between handlers, unparsable datagrams ignored. Id <-> SocketAddrV4 is judged on 15 625 structured + random 48-bit ids incl. round trips and injectivity.",
+             note="OS timings sampled; loopback loss is retried; timing bound uses handler-entry clocks so it holds under any scheduling", ref="4/C17"),
  "C11": dict(technique="TLA+ observation validation against Graph!EvCex (maximal-path semantics), exactness on generated forests",
              text="Reported eventually-counterexamples are judged by TLC against the existence of a maximal in-boundary path avoiding the condition (terminal or cycle in the non-sat region); on forest-shaped graphs the converse is judged too.",
              note="trusts TLC; forests are recognised by Graph!IsForest", ref="4/C11"),
